@@ -2,12 +2,16 @@ package c13
 
 import (
 	"bytes"
+	"context"
 	"fmt"
+	"io"
 	"os"
 	"path/filepath"
+	"runtime"
 	"sort"
 	"strings"
 	"sync"
+	"time"
 
 	"go4.org/jsonconfig"
 
@@ -17,6 +21,7 @@ import (
 	"perkeep.org/pkg/blobserver/files"
 	"perkeep.org/pkg/sorted"
 
+	"verifharness/props/c01"
 	"verifharness/stores"
 )
 
@@ -25,7 +30,9 @@ import (
 // call log of a healthy run, not from a constant – fails once, in each failure mode that call has.
 //
 // Scenarios: receive of a NEW blob, RE-receive of an existing acknowledged blob, remove, remove of an
-// absent blob, fetch, stat, enumerate; on a store that already holds acknowledged blobs.
+// absent blob, a RemoveBlobs batch of three acknowledged blobs, a batch mixing present and absent blobs,
+// fetch, stat, a StatBlobs batch, enumerate; on a store that already holds four acknowledged blobs, one
+// of which no remove ever names (the bystander).
 // After each faulted operation the oracle demands: the call answered an error or was exact; every
 // previously acknowledged, unremoved blob is still fetched back intact and stat'ed with its size; the
 // operation's own blob is absent or intact (never partial); enumerate lists exactly the blobs that can
@@ -79,6 +86,7 @@ var mutatingCall = map[string]bool{
 	"Remove": true, "RemoveDir": true, "MkdirAll": true, "Rename": true, "TempFile": true,
 	"Write": true, "Sync": true, "Close": true,
 	"Set": true, "Delete": true, "CommitBatch": true,
+	"ReceiveBlob": true, "RemoveBlobs": true,
 }
 
 type planVFS struct {
@@ -303,6 +311,8 @@ type sweepWorld struct {
 	close func()
 	// reindex, when set, rebuilds the index from the data files and reports the error class
 	reindex func() string
+	// after, when set, runs after every operation (waits for the goroutines the operation started)
+	after func()
 }
 
 type sweepBlob struct {
@@ -312,28 +322,40 @@ type sweepBlob struct {
 
 type scenario struct {
 	name string
-	// acked: indexes of the blobs acknowledged before the op; the op acts on blob `on`
+	// acked: indexes of the blobs acknowledged before the op; the op acts on the blobs `ons` (recv and
+	// fetch: one blob; rm and stat: one call with all of them = a batch)
 	acked []int
 	kind  string // recv rm fetch stat enum
-	on    int
+	ons   []int
 }
 
+// blobs 0..3 are acknowledged before every operation, blob 4 is not there; blob 3 is never the target
+// of a remove: the acknowledged, unrelated bystander
 func sweepScenarios() []scenario {
+	ack := []int{0, 1, 2, 3}
 	return []scenario{
-		{"recv-new", []int{0, 1}, "recv", 2},
-		{"recv-dup", []int{0, 1}, "recv", 0},
-		{"rm", []int{0, 1}, "rm", 0},
-		{"rm-absent", []int{0, 1}, "rm", 2},
-		{"fetch", []int{0, 1}, "fetch", 1},
-		{"stat", []int{0, 1}, "stat", 0},
-		{"enum", []int{0, 1}, "enum", 0},
+		{"recv-new", ack, "recv", []int{4}},
+		{"recv-dup", ack, "recv", []int{0}},
+		{"rm", ack, "rm", []int{0}},
+		{"rm-absent", ack, "rm", []int{4}},
+		{"rm-batch", ack, "rm", []int{0, 1, 2}},
+		{"rm-batch-mixed", ack, "rm", []int{1, 4, 0}},
+		{"fetch", ack, "fetch", []int{1}},
+		{"stat", ack, "stat", []int{0}},
+		{"stat-batch", ack, "stat", []int{2, 4, 0, 1}},
+		{"enum", ack, "enum", []int{0}},
 	}
 }
 
 // doOp executes the scenario's operation; answer class: ok / err / notexist / panic / hang, plus whether
 // a read answered exactly
 func doOp(w *sweepWorld, sc scenario, blobs []sweepBlob, present map[int]bool) (cls string, exact bool) {
-	b := blobs[sc.on]
+	b := blobs[sc.ons[0]]
+	on := sc.ons[0]
+	var refs []blob.Ref
+	for _, i := range sc.ons {
+		refs = append(refs, blobs[i].ref)
+	}
 	cls = watchdog(opTimeout, func() string {
 		switch sc.kind {
 		case "recv":
@@ -343,17 +365,23 @@ func doOp(w *sweepWorld, sc scenario, blobs []sweepBlob, present map[int]bool) (
 			}
 			return stores.ErrClass(err)
 		case "rm":
-			err := w.sto.RemoveBlobs(ctx, []blob.Ref{b.ref})
+			err := w.sto.RemoveBlobs(ctx, refs)
 			exact = err == nil
 			return stores.ErrClass(err)
 		case "fetch":
 			v, c := stores.Fetch(ctx, w.sto, b.ref)
-			exact = (c == "ok" && present[sc.on] && bytes.Equal(v, b.val)) || (c == "notexist" && !present[sc.on])
+			exact = (c == "ok" && present[on] && bytes.Equal(v, b.val)) || (c == "notexist" && !present[on])
 			return c
 		case "stat":
-			l, c := stores.Stat(ctx, w.sto, []blob.Ref{b.ref})
+			l, c := stores.Stat(ctx, w.sto, refs)
 			if c == "ok" {
-				exact = (present[sc.on] && len(l) == 1 && int(l[0].Size) == len(b.val)) || (!present[sc.on] && len(l) == 0)
+				sub := map[int]bool{}
+				for _, i := range sc.ons {
+					if present[i] {
+						sub[i] = true
+					}
+				}
+				exact = enumMatches(l, blobs, sub)
 			}
 			return c
 		default:
@@ -364,6 +392,9 @@ func doOp(w *sweepWorld, sc scenario, blobs []sweepBlob, present map[int]bool) (
 			return c
 		}
 	})
+	if w.after != nil && cls != "hang" {
+		w.after()
+	}
 	return cls, exact
 }
 
@@ -466,7 +497,7 @@ func sweep(mk func() (*sweepWorld, error), blobs []sweepBlob) (*sweepResult, err
 		res.calls[sc.name] = n
 		for k := 0; k < n; k++ {
 			modes := []byte{'b'}
-			if mutatingCall[log[k]] {
+			if mutatingCall[log[k][strings.LastIndexByte(log[k], '.')+1:]] {
 				modes = append(modes, 'a')
 			}
 			for _, mode := range modes {
@@ -476,7 +507,7 @@ func sweep(mk func() (*sweepWorld, error), blobs []sweepBlob) (*sweepResult, err
 				}
 				tag := fmt.Sprintf("%s/call%d-%s-%c", sc.name, k, log[k], mode)
 				res.cases[sc.name]++
-				res.names[log[k]] = true
+				res.names[log[k][strings.LastIndexByte(log[k], '.')+1:]] = true
 				w.plan.arm(k, mode)
 				cls, exact := doOp(w, sc, blobs, present)
 				_, _, hit := w.plan.disarm()
@@ -501,15 +532,17 @@ func sweep(mk func() (*sweepWorld, error), blobs []sweepBlob) (*sweepResult, err
 						must[i] = 1
 					}
 				}
-				switch {
-				case sc.kind == "recv" && cls == "ok":
-					must[sc.on] = 1
-				case sc.kind == "recv" && !present[sc.on]:
-					must[sc.on] = 2 // failed receive of a new blob: absent or complete
-				case sc.kind == "rm" && cls == "ok":
-					must[sc.on] = 0
-				case sc.kind == "rm" && present[sc.on]:
-					must[sc.on] = 2 // failed remove: still there (intact) or gone
+				for _, on := range sc.ons {
+					switch {
+					case sc.kind == "recv" && cls == "ok":
+						must[on] = 1
+					case sc.kind == "recv" && !present[on]:
+						must[on] = 2 // failed receive of a new blob: absent or complete
+					case sc.kind == "rm" && cls == "ok":
+						must[on] = 0
+					case sc.kind == "rm" && present[on]:
+						must[on] = 2 // failed remove: each blob of the batch still there (intact) or gone
+					}
 				}
 				resolved := map[int]bool{}
 				for _, v := range checkState(w, blobs, must, resolved) {
@@ -526,11 +559,13 @@ func sweep(mk func() (*sweepWorld, error), blobs []sweepBlob) (*sweepResult, err
 						final[i] = 1
 					}
 				}
-				if sc.kind == "recv" {
-					final[sc.on] = 1
-				}
-				if sc.kind == "rm" {
-					final[sc.on] = 0
+				for _, on := range sc.ons {
+					if sc.kind == "recv" {
+						final[on] = 1
+					}
+					if sc.kind == "rm" {
+						final[on] = 0
+					}
 				}
 				for _, v := range checkState(w, blobs, final, map[int]bool{}) {
 					add("after-retry:" + v)
@@ -567,7 +602,7 @@ func (r *sweepResult) line(tag string) string {
 
 func sweepBlobs(size int) []sweepBlob {
 	var out []sweepBlob
-	for i := 0; i < 3; i++ {
+	for i := 0; i < 5; i++ {
 		v := bytes.Repeat([]byte{byte('p' + i)}, size)
 		if size > 0 {
 			v[0] = byte('0' + i)
@@ -634,4 +669,82 @@ func probeDiskpackedSweep(size, maxFile int) string {
 		return "bad-op " + err.Error()
 	}
 	return res.line(fmt.Sprintf("dpsweep size=%d max=%d", size, maxFile))
+}
+
+// ---- the same sweep one level up: storage trees over leaves that fail at the Storage interface ---------------
+
+// planSto puts a leaf behind a callPlan shared by all leaves of the tree: the calls of one operation
+// are numbered across the leaves in the order they are made.
+type planSto struct {
+	inner blobserver.Storage
+	p     *callPlan
+	name  string
+}
+
+func (s *planSto) one(method string, empty bool) *faultSto {
+	if empty {
+		return &faultSto{inner: s.inner}
+	}
+	m := s.p.call(s.name + "." + method)
+	if m == 'n' {
+		return &faultSto{inner: s.inner}
+	}
+	return &faultSto{inner: s.inner, sched: []byte{m}}
+}
+func (s *planSto) Fetch(c context.Context, br blob.Ref) (io.ReadCloser, uint32, error) {
+	return s.one("Fetch", false).Fetch(c, br)
+}
+func (s *planSto) ReceiveBlob(c context.Context, br blob.Ref, src io.Reader) (blob.SizedRef, error) {
+	return s.one("ReceiveBlob", false).ReceiveBlob(c, br, src)
+}
+func (s *planSto) StatBlobs(c context.Context, blobs []blob.Ref, fn func(blob.SizedRef) error) error {
+	return s.one("StatBlobs", len(blobs) == 0).StatBlobs(c, blobs, fn)
+}
+func (s *planSto) RemoveBlobs(c context.Context, blobs []blob.Ref) error {
+	return s.one("RemoveBlobs", len(blobs) == 0).RemoveBlobs(c, blobs)
+}
+func (s *planSto) EnumerateBlobs(c context.Context, dest chan<- blob.SizedRef, after string, limit int) error {
+	return s.one("EnumerateBlobs", false).EnumerateBlobs(c, dest, after, limit)
+}
+
+// probeTreeSweep: a storage tree (c01 notation) whose leaves share one call plan
+func probeTreeSweep(size int, tokens []string) string {
+	root, rest, ok := c01.ParseTree(tokens)
+	if !ok || len(rest) != 0 {
+		return "bad-op"
+	}
+	mk := func() (*sweepWorld, error) {
+		env, err := stores.NewEnv()
+		if err != nil {
+			return nil, err
+		}
+		p := &callPlan{at: -1}
+		nLeaf := 0
+		sto, err := env.Build(root, func(kind string, s blobserver.Storage) blobserver.Storage {
+			nLeaf++
+			return &planSto{inner: s, p: p, name: fmt.Sprintf("L%d", nLeaf-1)}
+		})
+		if err != nil {
+			env.Close()
+			return nil, err
+		}
+		base := runtime.NumGoroutine()
+		w := &sweepWorld{sto: sto, plan: p, dir: env.Dir, close: env.Close}
+		w.after = func() {
+			deadline := time.Now().Add(2 * time.Second)
+			for i := 0; runtime.NumGoroutine() > base && time.Now().Before(deadline); i++ {
+				if i < 50 {
+					runtime.Gosched()
+				} else {
+					time.Sleep(100 * time.Microsecond)
+				}
+			}
+		}
+		return w, nil
+	}
+	res, err := sweep(mk, sweepBlobs(size))
+	if err != nil {
+		return "bad-op " + err.Error()
+	}
+	return res.line(fmt.Sprintf("treesweep size=%d", size))
 }
